@@ -175,7 +175,7 @@ func c20sGuard(res *verifResult, subs []*c20sSub, what string, cs map[string]int
 }
 
 func TestVerif_C20S(t *testing.T) {
-	res := newVerifResult("bursts of issuance (ssh / x509 / kubernetes certificates through the real certgen handler), CLI password logins and direct calls of every exported Publish* method, with subscribers attached through the production connection path over unbuffered pipes: one for every lag 0..15 (events published but not yet read) and two that stay connected and stop reading (from the start / after ten operations) until their queues are full and beyond; every operation runs under a watchdog and must return; the k-th event each healthy subscriber is handed = the k-th published event, certificate bytes = the bytes returned to the requester; a stalled subscriber is handed a subsequence; non-trivial = a subscriber that is behind (or stalled) when the next event is published")
+	res := newVerifResult("bursts of issuance (ssh / x509 / kubernetes certificates through the real certgen handler), CLI password logins and direct calls of every exported Publish* method, with subscribers attached through the production connection path over unbuffered pipes: one for every lag 0..15 (events published but not yet read) and two that stay connected and stop reading (from the start / after ten operations) until their queues are full and beyond; every operation runs under a watchdog and must return; the k-th event each healthy subscriber is handed = the k-th published event, certificate bytes = the bytes returned to the requester; a stalled subscriber is handed a subsequence; subscriber churn: every sequence of connects and disconnects (peer closes) of up to six operations with at most three connected, and longer random ones, through the same production path with something published after every arrival and departure: every connection is handed exactly the events published while it was connected; non-trivial = a subscriber that is behind (or stalled) when the next event is published")
 	env := verifSetup(t, func(c *AppConfigFile, dir string) {
 		c.Base.AllowedAuthBackendsForWebUI = []string{"password"}
 		c.Base.AllowedAuthBackendsForCerts = []string{"U2F"}
@@ -477,6 +477,8 @@ func TestVerif_C20S(t *testing.T) {
 	if len(idx) > 0 {
 		res.sample(idx[0])
 	}
+	// subscribers that come and go (c20k.go)
+	c20kChurn(t, env, res, keys)
 	res.write(t, "TestVerif_C20S")
 }
 
